@@ -340,8 +340,17 @@ def generate(repo):
     out.append('Definition load_goes_through_admit : bool := %s.\n' % (
         'true' if re.search(r'let element = self\.admit\(element\);\s*self\.loaded\.insert\(id, element\.clone\(\)\);\s*Ok\(element\)', ld) else 'false'))
     out.append('Definition candidates_goes_through_admit : bool := %s.\n' % (
-        'true' if re.search(r'let admitted = self\.admit\(Some\(element\)\);', cd) and
+        'true' if re.search(r'let admitted = self\.admit\((?:Some\(element\)|present\.then_some\(element\))\);', cd) and
         re.search(r'if admitted\.is_some\(\)\s*\{\s*ids\.push\(id\);', cd) else 'false'))
+    # a read bound to a past coordinate also judges the element's present row; that read returns a bool only
+    rn = fn_body2(kqlmod, 'readable_now') if re.search(r'\bfn\s+readable_now\b', kqlmod) else None
+    out.append('Definition readable_now_only_judges : bool := %s.\n' % (
+        'true' if rn is None or re.fullmatch(
+            r'\s*match self\.store\.get_element\(id\)\.await \{\s*Ok\(current\) => self\.authority\.may_read\(&current, self\.auth\)\.is_some\(\),\s*Err\(_\) => true,\s*\}\s*', rn)
+        else 'false'))
+    out.append('Definition historical_reads_judge_present_row : bool := %s.\n' % (
+        'true' if rn is not None and re.search(r'Some\(past\) if self\.readable_now\(id\)\.await => Some\(past\)', ld)
+        and re.search(r'let present = self\.readable_now\(id\)\.await;', cd) else 'false'))
     i1 = ad.find('self.authority.may_read(&element, self.auth)?')
     i2 = ad.find('redact::apply(&mut view, &constraints, self.read_origin)')
     i3 = ad.find('self.views.insert(')
